@@ -112,10 +112,16 @@ def check_bic(rec: Rec, text: str, origin: str):
 
 
 def replay(rec, case):
+    if case["input"].get("origin") == "configurations":
+        from ._configs import replay as _r
+        return _r(rec, case)
     i = case["input"]
     if i.get("origin") == "foreign-bban-object":
         t = i["iban"]
         check_foreign_bban_object(rec, i["bban_object_country"], t[:2], t[4:], t)
+        return
+    if i.get("origin") == "overlay":
+        overlay_stage(rec, case.get("seed", 1), "quick")
         return
     if "bic" in i:
         check_bic(rec, i["bic"], i.get("origin", "replay"))
@@ -207,6 +213,57 @@ def shard_registry(arg):
     return rec
 
 
+def overlay_stage(rec: Rec, seed, tier):
+    """'Empty when the country has no such field' and 'the BBAN substring at the published position' for tables an overlay
+    file produces: every bundled country gets default_<component> keys (the bundled data carry default_currency_code for two
+    countries that have the field) and free-form keys for components it has no position for, and synthetic countries with
+    unusual layouts and the extreme lengths are added. Judged over the effective table, in a copy of the package."""
+    import random
+    from .. import gens as gens_mod
+    from ..engines.pkgcopy import PackageCopy
+    from ..oracles.core import IbanOracle, load_table, repo_root
+    from .c08 import SYNTHETIC
+    rng = random.Random(f"{seed}:C11:overlay")
+    o = oracle()
+    overlay = {}
+    for cc in o.countries():
+        free = [c for c in COMPONENTS if c not in o.positions(cc)]
+        entry = {}
+        for c in rng.sample(free, min(len(free), 3)):
+            entry["default_" + c] = rng.choice(["EUR", "00", "X"])
+        if free:
+            entry[rng.choice(free) + "_note"] = "n/a"
+        overlay[cc] = entry
+    syn = dict(SYNTHETIC)
+    for cc, spec in syn.items():
+        overlay[cc] = {"country": cc, "in_sepa_zone": False, "iban_spec": cc + "2!n" + spec["bban_spec"],
+                       "iban_length": spec["bban_length"] + 4, "default_currency_code": "XYD", **spec}
+    with PackageCopy(repo_root(), iban_files={"zz_c11_overlay.json": overlay}, keep_bundled_bank=True) as pc:
+        eff = IbanOracle(load_table(pc.iban_dir))
+        g = gens_mod.Gen(eff)
+        texts = [g.iban(cc, rng) for cc in eff.countries() for _ in range(2 if tier == "quick" else 20)]
+        res = pc.query([{"op": "iban_info", "text": t} for t in texts] + [{"op": "from_bban", "cc": t[:2], "bban": t[4:]} for t in texts])
+        if isinstance(res, dict):
+            rec.fail("copy_import_fails|overlay", "component_is_table_slice", {"iban": "", "origin": "overlay"}, "imports",
+                     res["import_error"][-300:])
+            return
+        for t, r, r2 in zip(texts, res[:len(texts)], res[len(texts):]):
+            cc = t[:2]
+            inp = {"iban": t, "origin": "overlay", "entry": overlay.get(cc)}
+            rec.case("overlay-synthetic" if cc in syn else "overlay-extra-keys", t)
+            if "ok" not in r:
+                rec.excluded["constructed valid IBAN rejected in the copy (C01/C18 territory)"] += 1
+                continue
+            for k in COMPONENTS:
+                want = eff.component(cc, t[4:], k)
+                if r["ok"]["components"].get(k) != want:
+                    rec.fail(f"component|{k}|{'defined' if k in eff.positions(cc) else 'undefined'}|overlay", "component_is_table_slice",
+                             {**inp, "component": k}, want, r["ok"]["components"].get(k))
+                    break
+            if r2.get("ok") != t:
+                rec.fail("reassemble|overlay", "from_bban_roundtrip", inp, t, r2)
+
+
 def shard_bic(arg):
     bics, seed = arg
     import random
@@ -229,7 +286,8 @@ def run(ctx):
     o = oracle()
     ctx.rule = ("Accepted IBANs: reference-built valid IBANs of every bundled country (random, letters-only, digits-only, min, "
                 "max) and IBANs built around (a sample of) the registry's bank codes; accepted BICs: the registry's BICs and "
-                "generated 8/11-character BICs over all ISO countries. Every distinct accepted object is non-trivial; every "
+                "generated 8/11-character BICs over all ISO countries; a package copy whose overlay adds default_*/free-form "
+                "keys to every country and synthetic countries (unusual layouts, 9- and 34-character IBANs). Every distinct accepted object is non-trivial; every "
                 "country must be hit.")
     ctx.explanation = ("Oracle: slices of the compact form at the positions of the independently merged country table; "
                        "cc+digits+bban == compact; IBAN-level accessor == BBAN-level accessor == table slice (or ''); fields "
@@ -245,4 +303,7 @@ def run(ctx):
     bics = sorted({e["bic"] for e in banks if e.get("bic")})[::ctx.pick(3, 1)]
     chunk = max(1, len(bics) // 32)
     ctx.pmap(shard_bic, [(bics[i:i + chunk], ctx.seed) for i in range(0, len(bics), chunk)])
-    ctx.require_classes("foreign-bban-object", "iban-sibling-text", "iban-registry-derived", "bic-registry", "bic-gen-8", "bic-gen-11", *[f"iban-{cc}" for cc in o.countries()])
+    overlay_stage(ctx.rec, ctx.seed, ctx.tier)
+    from ._configs import stage as _config_stage
+    _config_stage(ctx, ['assemble', 'bic'])
+    ctx.require_classes("overlay-extra-keys", "overlay-synthetic", "foreign-bban-object", "iban-sibling-text", "iban-registry-derived", "bic-registry", "bic-gen-8", "bic-gen-11", *[f"iban-{cc}" for cc in o.countries()])
